@@ -10,7 +10,7 @@ import (
 )
 
 func init() {
-	register("C02", 30, "Decided (for every path of the current source): reporting success for a file is dominated by each integrity gate the protocol has, with the right polarity — (1) digest compare on both sides and the MD5 exchange on every path of the per-file loop, (2) the same slice feeds file and hash and the MD5 stage hashes every element and emits only after a clean close, (3) saved length == announced size gates the final ack and the drivers' success return, (4) echo checks NUM/SIZE/chunk/MD5, (5) typed-line framing and the COMP flag, (6) decode errors (unknown escape code, leftover bytes, reader error), (7) short source, (8) no error of the send/recv/check/write layer is dropped. Not decided: behaviour under each concrete fault pattern, sufficiency of MD5+length, what decoders do on every corrupted input.",
+	register("C02", 30, "Decided (for every path of the current source): reporting success for a file is dominated by each integrity gate the protocol has, with the right polarity — (1) digest compare on both sides and the MD5 exchange on every path of the per-file loop, (2) the same slice feeds file and hash and the MD5 stage hashes every element and emits only after a clean close, (3) saved length == announced size gates the final ack and the drivers' success return, (4) echo checks NUM/SIZE/chunk/MD5, (5) typed-line framing and the COMP flag, (6) decode errors (unknown escape code, leftover bytes, reader error), (7) short source, (8) no error of the send/recv/check/write layer is dropped. Not decided: behaviour under each concrete fault pattern, sufficiency of MD5+length, what decoders do on every corrupted input. Added after the mutation campaign: the error rule demands a definitely non-nil error on every non-nil edge and covers the handshake/exit exchanges, the JSON hooks and the four drivers; (C02-10) protocol-1 loops send/write, hash and count the same chunk and stop at the size; the resume remainder is consumed once.",
 		func(c *Ctx) {
 			c.run("C02-1", "GUARD-DOM/MUST-PASS: success is reported only on the equal edge of the digest compare; the per-file loop cannot skip the MD5 exchange", c02Digest)
 			c.run("C02-2", "SIBLING: one byte stream feeds file and hash; the MD5 stage hashes every element and emits the digest only after a clean close", c02OneStream)
